@@ -94,8 +94,10 @@ Inductive cevent :=
 | EDns (now : N) (src : addr) (dst : option addr) (data : bytes)   (* DNS listener readable: ondns *)
 | EUdp (now : N) (src : addr) (dst : option addr) (data : bytes)   (* UDP listener readable: onaccept_udp *)
 | ETcp (now : N) (family : N) (dst : addr)                         (* TCP accept reaching next_channel *)
-| EFrame (ch : N) (data : bytes) (sr : sendres).                   (* frame from the server dispatched by the
+| EFrame (ch : N) (data : bytes) (sr : sendres)                    (* frame from the server dispatched by the
                                                                       final else of Mux.got_packet *)
+| ETcpEnd (ch : N).                                                (* the TCP flow on identifier ch is over: its
+                                                                      MuxWrapper does noread() + nowrite() *)
 
 Definition c_occ (c : cstate) (ch : N) : bool := amem N.eqb ch (c_chan c).
 
@@ -214,6 +216,24 @@ Definition onaccept_tcp (cfg : ccfg) (now : N) (family : N) (dst : addr) (c : cs
     Ok (prepend [OFrame ch CMD_TCP_CONNECT body] r)
   end.
 
+(* A TCP flow ends (ssnet.py 493-519): MuxWrapper.noread() sends TCP_STOP_SENDING, nowrite() sends TCP_EOF, and
+   with both directions shut maybe_close() does `self.mux.channels[self.channel] = None` - the key STAYS in the
+   dict with the value None (DNS / UDP flows `del` theirs).  c_chan represents a None-valued key by the absence of
+   the key: every reader of mux.channels in the modelled code treats the two alike - `not self.channels.get(c)`
+   in next_channel (ssnet.py 367: an identifier whose TCP flow is finished is FREE), `self.channels.get(channel)`
+   in got_packet (ssnet.py 443) - and `del mux.channels[chan]` is only ever applied to the identifier of a live
+   DNS / UDP flow.  An identifier that is not that of a live TCP flow: the environment has no wrapper to end.   *)
+Definition tcp_end (ch : N) (c : cstate) : res (cstate * list cout) :=
+  match alookup N.eqb ch (c_chan c) with
+  | Some KTcp =>
+    do _ <- mux_check ch CMD_TCP_STOP_SENDING [];
+    do _ <- mux_check ch CMD_TCP_EOF [];
+    Ok ({| c_chan := adel N.eqb ch (c_chan c); c_chani := c_chani c; c_dns := c_dns c; c_udp := c_udp c;
+           c_nq := c_nq c |},
+        [OFrame ch CMD_TCP_STOP_SENDING []; OFrame ch CMD_TCP_EOF []])
+  | _ => Ok (c, [])
+  end.
+
 (* method.send_udp(sock, srcip=from, dstip=to, data) + F16 repair (socket.error caught by the caller) *)
 Definition send_udp (fx : fixes) (m : method) (q : option N) (from : option addr) (to : addr)
   (data : bytes) (sr : sendres) : res (list cout) :=
@@ -259,6 +279,7 @@ Definition cstep (fx : fixes) (cfg : ccfg) (c : cstate) (e : cevent) : res (csta
   | EUdp now src dst data => onaccept_udp fx cfg now src dst data c
   | ETcp now fam dst => onaccept_tcp cfg now fam dst c
   | EFrame ch data sr => got_packet fx cfg ch data sr c
+  | ETcpEnd ch => tcp_end ch c
   end.
 
 (* a run stops at the first exception (the client process is gone) *)
